@@ -13,6 +13,7 @@ import (
 	"testing"
 	"time"
 
+	"github.com/99designs/gqlgen/graphql"
 	"github.com/99designs/gqlgen/graphql/handler"
 	"github.com/99designs/gqlgen/graphql/handler/transport"
 	"github.com/gorilla/websocket"
@@ -75,8 +76,26 @@ func queryFor(st Step) string {
 		return fmt.Sprintf("subscription { %s: tick { id n } }", a)
 	case "invalid":
 		return "{ nope }"
+	case "refused":
+		// valid, but an operation-context extension of the server refuses it (as a complexity limit
+		// or an authorisation extension would)
+		return fmt.Sprintf("query { %s%s: s }", refusedMark, a)
 	}
 	return ""
+}
+
+const refusedMark = "refusedByPolicy_"
+
+// refuser is an extension that refuses marked operations while their context is created.
+type refuser struct{}
+
+func (refuser) ExtensionName() string                          { return "Refuser" }
+func (refuser) Validate(schema graphql.ExecutableSchema) error { return nil }
+func (refuser) MutateOperationContext(ctx context.Context, rc *graphql.OperationContext) *gqlerror.Error {
+	if strings.Contains(rc.RawQuery, refusedMark) {
+		return gqlerror.Errorf("operation refused by policy")
+	}
+	return nil
 }
 
 // session state shared with the server side
@@ -156,6 +175,7 @@ func check(c Case) *vfrun.Failure {
 		}
 	}
 	h.AddTransport(ws)
+	h.Use(refuser{})
 	h.SetRecoverFunc(func(ctx context.Context, err any) error { return gqlerror.Errorf("%s", proj.RecoverMsg(err)) })
 	srvCtx, cancelSrv := context.WithCancel(context.Background())
 	defer cancelSrv()
@@ -420,6 +440,9 @@ waitLoop:
 		}
 	}
 	for _, ev := range events {
+		if ev.Kind == "R" && strings.Contains(ev.Key, refusedMark) {
+			return vfrun.Failf("ws.refused-operation-executed", "%s: resolver %s ran although an extension refused the operation", desc, ev.Key)
+		}
 		if ev.Kind == "R" {
 			if !initSent || !initAcceptable || (c.InitFunc == "accept" && (initSeq < 0 || ev.Seq < initSeq)) {
 				return vfrun.Failf("ws.executed-before-init-accepted", "%s: resolver %s ran although the handshake was not accepted (initSeq %d, event seq %d)", desc, ev.Key, initSeq, ev.Seq)
@@ -596,7 +619,7 @@ func gen(t *rapid.T) Case {
 			st.Kind, st.ID = "start", fmt.Sprint(nextID)
 			nextID++
 			ids = append(ids, st.ID)
-			st.Op = rapid.SampledFrom([]string{"subscription", "subscription", "subscription", "query", "mutation", "invalid", "badjson", "nullpayload"}).Draw(t, "op")
+			st.Op = rapid.SampledFrom([]string{"subscription", "subscription", "subscription", "query", "mutation", "invalid", "badjson", "nullpayload", "refused"}).Draw(t, "op")
 			st.Events = rapid.IntRange(0, 5).Draw(t, "events")
 			st.GapUS = rapid.SampledFrom([]int{0, 50, 500, 2000}).Draw(t, "gap")
 			st.Fault = rapid.SampledFrom([]string{"", "", "", "error", "panic"}).Draw(t, "fault")
